@@ -6,7 +6,7 @@
    coap_io_prepare_io, ACK / RST branches of coap_dispatch). *)
 From LibcoapV Require Import Base.Tactics Sched.FixedPoint Sched.FixedPointProofs
   Sched.SendQueue Sched.SendQueueProofs Sched.Retransmit Sched.RetransmitProofs
-  Sched.RetransmitTimeProofs.
+  Sched.RetransmitTimeProofs Sched.RetransmitSpacingProofs.
 From Coq Require Import Sorting.Permutation.
 Local Open Scope Z_scope.
 
@@ -169,12 +169,49 @@ Theorem C06_schedule : forall t0 base0 k s m b cfg r fuel,
   let (st1, o1) := rt_send (rt_mk_state t0 base0 [] k) s m b cfg r in
   let (st2, o2) := rt_punctual fuel st1 in
   filter rt_is_tx_nack (o1 ++ o2) =
-    map (fun j => RoTx (rt_sched_time t0 T j) k s b) (seq 0 (S (Z.to_nat mx))) ++
+    map (fun j => RoTx (rt_sched_time t0 T j) k s b (Z.of_nat j) T) (seq 0 (S (Z.to_nat mx))) ++
     [RoNack (rt_sched_time t0 T (S (Z.to_nat mx))) k s rt_NACK_TOO_MANY_RETRIES m mx mx] /\
   rs_q st2 = [] /\ rs_now st2 = rt_sched_time t0 T (S (Z.to_nat mx)) /\
   (exists o', o2 = o' ++ [RoWait (rs_now st2) 0 (-1)]).
 Proof. exact rt_schedule. Qed.
 Print Assumptions C06_schedule.
+
+(* The same law for EVERY driver and every traffic (ticks at any times, late or early, other
+   messages, answers of the peer): transmission number i of a message carries retransmit
+   counter i, and transmission i+1 comes with the same T, never earlier than T * 2^i after
+   transmission i ... *)
+Theorem C06_spacing : forall t0 evs u,
+  Forall rt_ev_ok evs ->
+  let tr := snd (rt_run (rt_init t0) evs) in
+  forall i t c T, nth_error (rt_tproj u tr) i = Some (t, c, T) ->
+    c = Z.of_nat i /\
+    forall t' c' T', nth_error (rt_tproj u tr) (S i) = Some (t', c', T') ->
+      T' = T /\ t + T * 2 ^ Z.of_nat i <= t'.
+Proof. exact rt_spacing. Qed.
+Print Assumptions C06_spacing.
+
+(* ... the deadline of every queued message is its last transmission + T * 2^retransmit_cnt
+   (C06_wait_sound: a prepare call leaves nothing behind that is due, so the retransmission
+   happens at the first prepare call or datagram arrival at or after that deadline) ... *)
+Theorem C06_deadline_law : forall t0 evs d n,
+  Forall rt_ev_ok evs ->
+  let st := fst (rt_run (rt_init t0) evs) in
+  let tr := snd (rt_run (rt_init t0) evs) in
+  In (d, n) (sq_abs (rs_base st) (rs_q st)) ->
+  exists l t, rt_tproj (qn_uid n) tr = l ++ [(t, qn_cnt n, qn_timeout n)] /\
+              d = t + qn_timeout n * 2 ^ qn_cnt n.
+Proof. exact rt_deadline_law. Qed.
+Print Assumptions C06_deadline_law.
+
+(* ... and T is computed once, from the session's settings and one random byte, when the
+   message is accepted *)
+Theorem C06_T_drawn_once : forall st s m b cfg r,
+  snd (rt_send st s m b cfg r) =
+  [RoTx (rs_now st) (rs_uid st) s b 0
+        (fp_calc_timeout (rc_at_ip cfg) (rc_at_fp cfg) (rc_arf_ip cfg) (rc_arf_fp cfg) r);
+   RoSent m].
+Proof. exact (fun st s m b cfg r => eq_refl). Qed.
+Print Assumptions C06_T_drawn_once.
 
 (* ---------------------------------------------------------------- one outcome *)
 (* For every event sequence - any number of messages and sessions, ACK / RST at any time,
